@@ -53,6 +53,156 @@ def gen_case(rng, nops):
             ops.append([4])
     return ops
 
+
+# ---------------------------------------------------------------- publish stream (media.GetOrCreate)
+def py_canon(p):
+    """utils.CanonicalPath (ASCII): TrimSpace, ToLower, leading '/', path.Clean, trailing '/' kept"""
+    p = p.strip(" \t\n\v\f\r").lower()
+    if p == "":
+        return "/"
+    if p[0] != "/":
+        p = "/" + p
+    st = []
+    for seg in p.split("/"):
+        if seg == "" or seg == ".":
+            continue
+        if seg == "..":
+            if st:
+                st.pop()
+            continue
+        st.append(seg)
+    np = "/" + "/".join(st)
+    if p[-1] == "/" and np != "/":
+        np += "/"
+    return np
+
+def py_stable(p):
+    return py_canon(py_canon(p)) == py_canon(p)
+
+PSEGS = ["cam", "in", "a", "b", "ab", "x1", "live"]
+
+def respell(rng, cp):
+    """another spelling of the canonical path cp (same CanonicalPath, checked)"""
+    for _ in range(8):
+        segs = cp.strip("/").split("/") if cp.strip("/") else []
+        out = []
+        for sg in segs:
+            r = rng.random()
+            if r < 0.35:
+                sg = "".join(ch.upper() if rng.random() < 0.5 else ch for ch in sg)
+            out.append(sg)
+            r = rng.random()
+            if r < 0.12:
+                out.append(".")
+            elif r < 0.22:
+                out.append("")            # '//'
+            elif r < 0.30:
+                out += [rng.choice(PSEGS), ".."]
+        q = "/".join(out)
+        if cp.endswith("/") and cp != "/":
+            q += "/"
+        r = rng.random()
+        if r < 0.75:
+            q = "/" + q
+        elif r < 0.85:
+            q = "//" + q
+        if rng.random() < 0.2:
+            q = rng.choice([" ", "  ", "\t"]) + q
+        if rng.random() < 0.2:
+            q = q + rng.choice([" ", "\t ", "  "])
+        if py_canon(q) == cp and py_stable(q):
+            return q
+    return cp
+
+def gen_purl(rng, schemes):
+    sch = rng.choice(schemes)
+    host = {"rtsp://": rng.choice(["cam.test", "cam.test", "cam.test", "dead.test"])}.get(sch, rng.choice(["up", "up", "h2", "bad"]))
+    u = sch + host + rng.choice(["", "/", "/base", "/base/", "/x/y", "/live?a=1"])
+    return u
+
+FACTORY_POOL = [
+    [0, "", ""],                      # the real RTSP pull factory (loopback fake camera cam.test, dead.test refuses)
+    [1, "fka://", "fka://bad"],       # recording fakes; overlapping Can so that the order of the list decides
+    [1, "fk", "fkb://bad"],
+    [1, "fkb://", ""],
+]
+
+def gen_publish_case(rng, nops):
+    k = rng.choice([1, 2, 2, 3, 3, 3, 4])
+    fs = rng.sample(FACTORY_POOL, k)
+    if rng.random() < 0.1:
+        fs = []
+    schemes = ["fka://", "fkb://", "fkc://", "rtsp://", "rtsp://", "http://"]
+    ops, routes, paths = [], [], []       # routes: canonical patterns saved; paths: canonical stream paths touched
+
+    def fresh_pattern():
+        n = rng.choice([1, 1, 2, 2, 3])
+        p = "/" + "/".join(rng.choice(PSEGS) for _ in range(n))
+        if routes and rng.random() < 0.5:           # nest under / shadow an existing pattern
+            base = rng.choice(routes)
+            p = (base if base.endswith("/") else base + "/") + rng.choice(PSEGS)
+        if rng.random() < 0.65:
+            p += "/"
+        return p
+
+    def target():
+        """a canonical stream path worth asking for"""
+        r = rng.random()
+        if routes and r < 0.6:
+            base = rng.choice(routes)
+            if base.endswith("/"):
+                return base + rng.choice(["a", "b", "in/x1", "live", "cam/a/b", "ab"])
+            return base
+        if paths and r < 0.85:
+            return rng.choice(paths)
+        return "/" + "/".join(rng.choice(PSEGS) for _ in range(rng.choice([1, 2, 3])))
+
+    for _ in range(nops):
+        r = rng.random()
+        if r < 0.25 or not routes:
+            pat = fresh_pattern()
+            routes.append(pat)
+            ops.append([0, [respell(rng, pat) if rng.random() < 0.3 else pat, gen_purl(rng, schemes), rng.random() < 0.4]])
+        elif r < 0.30:
+            ops.append([1, respell(rng, rng.choice(routes))])
+        elif r < 0.38:
+            cp = target(); paths.append(cp)
+            ops.append([2, respell(rng, cp)])
+        elif r < 0.46 and paths:
+            ops.append([3, respell(rng, rng.choice(paths))])
+        elif r < 0.85:
+            cp = target(); paths.append(cp)
+            q = respell(rng, cp)
+            if rng.random() < 0.06:
+                q = q.rstrip(" \t") + "/"                 # a directory request: resolves to nothing
+            ops.append([4, q])
+            if rng.random() < 0.45:                        # the same stream asked for again, spelt differently
+                ops.append([rng.choice([4, 4, 5]), respell(rng, cp)])
+        elif r < 0.93 and paths:
+            ops.append([5, respell(rng, rng.choice(paths))])
+        else:
+            ops.append([6])
+    return [fs, ops]
+
+def publish_nontrivial(c):
+    # a route, and a request spelt non-canonically
+    return any(o[0] == 0 for o in c[1]) and any(o[0] == 4 and py_canon(o[1]) != o[1] for o in c[1])
+
+def publish_sig(c, e, o):
+    if any(op[0] == 4 and not py_stable(op[1]) for op in c[1]):
+        return "publish-request-canon-unstable"
+    return "publish-history"
+
+def unstable_witnesses(rng):
+    """known finding: a request whose CanonicalPath is not a fixed point is looked up in the registry under
+    one key and published under another, so the same request pulls again"""
+    out = []
+    for seg in ["a", "cam", "x1"]:
+        q = "/%s /b/.." % seg
+        out.append([[[1, "fka://", ""]], [[0, ["/" + seg, "fka://up/s", True]], [4, q], [4, q], [5, q]]])
+        out.append([[[1, "fka://", ""]], [[0, ["/", "fka://up/d/", False]], [4, q], [4, q]]])
+    return out
+
 def nontrivial(c):
     # at least two saves and a match
     return sum(1 for o in c if o[0] == 0) >= 2 and any(o[0] == 2 for o in c)
@@ -65,6 +215,13 @@ def run(ck):
     cases = [gen_case(rng, rng.randint(3, 40 if ck.thorough else 14)) for _ in range(n)]
     ck.stream("histories", cases, "C17_run", "C17", "C17_ok", nontrivial=nontrivial,
               sig=lambda c, e, o: "route-history")
+    # media.GetOrCreate: registry fast path, route, factory choice, what is published where
+    npub = 5000 if ck.thorough else 600
+    pcases = [gen_publish_case(rng, rng.randint(3, 30 if ck.thorough else 12)) for _ in range(npub)]
+    ck.stream("publish", pcases, "C17_publish_run", "C17_publish", "C17_publish_ok",
+              nontrivial=publish_nontrivial, sig=publish_sig)
+    ck.stream("publish_unstable_witness", unstable_witnesses(rng), "C17_publish_run", "C17_publish", "C17_publish_ok",
+              nontrivial=lambda c: True, sig=publish_sig)
     # the string model against Go directly
     alpha = "aB/. "
     strs = []
